@@ -17,10 +17,11 @@
        active afterwards iff it (was active and was not left) or was entered: entries - exits = change in activity.
    Former finding F21 ('entered while active': the history child of a parallel state targeted from inside it) is repaired
    in /repo; the witness machine is kept below as a positive example.
-   PARTIAL: (4) is proved per transition; for history targets the accounting is decided by the monitor on the
-   implementation and by the correspondence; timer / service non-interference for siblings follows from (3) only for
-   what is cancelled. *)
-From XSM Require Import Model.Macro Proofs.PhaseP Proofs.LegalP Proofs.SortP Proofs.StepP Proofs.DescentP Proofs.EffectP Proofs.AccountP.
+       The same for transitions to history pseudo-states (C03_history_exactly_once_accounting; deep / shallow, recorded or
+       not, from inside or outside the parent), under the consistency of the history store that every run maintains.
+   PARTIAL: (4) is proved per transition (every transition of every run by the C01 run invariant); timer / service
+   non-interference for siblings follows from (3) only for what is cancelled. *)
+From XSM Require Import Model.Macro Proofs.PhaseP Proofs.LegalP Proofs.SortP Proofs.StepP Proofs.DescentP Proofs.EffectP Proofs.AccountP Proofs.HistoryP.
 From Coq Require Import Sorting.Sorted.
 
 Theorem C03_phases_and_event_identity : forall eng pr m t tgt ev s0 s1,
@@ -102,6 +103,19 @@ Theorem C03_exactly_once_accounting : forall m, wf m = true -> good_initials m =
     /\ (forall x, In x (s_cfg s1) <-> (In x (s_cfg s0) /\ ~ In x (leaves_of seg)) \/ In x (enters_of seg)).
 Proof. exact external_accounting. Qed.
 Print Assumptions C03_exactly_once_accounting.
+
+(* ... also when the target is a history pseudo-state (the entered states are those of the combined path's tree) *)
+Theorem C03_history_exactly_once_accounting : forall m, wf m = true -> good_initials m = true -> forall eng pr t tgt ev s0 s1,
+  Legal m (s_cfg s0) -> HistOK m (s_hist s0) -> In (t_src t) (s_cfg s0) ->
+  tgt < size m -> is_history m tgt = true -> hist_static_ok m tgt ->
+  exec_external eng pr m t tgt ev s0 = (s1, None) ->
+  exists seg, s_log s1 = seg ++ s_log s0
+    /\ NoDup (leaves_of seg) /\ NoDup (enters_of seg)
+    /\ (forall x, In x (leaves_of seg) -> In x (s_cfg s0))
+    /\ (forall x, In x (enters_of seg) -> In x (s_cfg s0) -> In x (leaves_of seg))
+    /\ (forall x, In x (s_cfg s1) <-> (In x (s_cfg s0) /\ ~ In x (leaves_of seg)) \/ In x (enters_of seg)).
+Proof. exact history_accounting. Qed.
+Print Assumptions C03_history_exactly_once_accounting.
 
 (* internal / targetless transitions run actions only: configuration and history untouched *)
 Theorem C03_internal_actions_only : forall eng pr m t ev s,
